@@ -104,7 +104,7 @@ func VerifC06_IPv4() {
 }
 
 func VerifC06_IPv6() {
-	nchains := 8
+	nchains := 10
 	if vr.Thorough() {
 		nchains = len(ipv6Chains)
 	}
